@@ -430,7 +430,7 @@ def run_round(P, queries, facts):
                 continue
             row = [0, rtypes.index(ref.type.__name__) if ref.type.__name__ in rtypes else 97]
             for k in ref.key:
-                row += [k.type.value] + enc_str(k.value) + [-1]
+                row += [k.type.value] + rt.enc_utf8(k.value) + [-1]
             r, got = enc_res_sdk(P, lambda: ref.resolve(P.provider))
             obs.append(row + [-2] + r)
             # ---- oracle
@@ -557,7 +557,8 @@ def gen_queries(rng, aprov, facts, per_node, count, order="pre", is_old=None):
                     else:
                         keys.append((kt_of_cls[m["c"]], m["k"]))
                 ty_ok = rtypes.index(facts["table"][n["c"]]["ref_type"])
-                for _ in range(per_node):
+                wide = par is not None and len(par["ch"]) > 8       # items of long lists: fewer perturbations each
+                for _ in range(1 if wide else per_node):
                     ks = list(keys)
                     ty = rng.choice([0, ty_ok])
                     listpos = [j for j in range(1, len(chain)) if chain[j][1]["c"] == "SubmodelElementList"]
@@ -591,7 +592,8 @@ def gen_queries(rng, aprov, facts, per_node, count, order="pre", is_old=None):
                     elif kind in ("oob", "nonnum", "pyint") and listpos:
                         j = rng.choice(listpos)
                         ln = len(chain[j][1]["ch"])
-                        v = {"oob": rng.choice([str(ln), str(ln + 7), "99999999999999999999999", str(ln) + "0"]),
+                        v = {"oob": rng.choice([str(ln), str(ln + 7), "99999999999999999999999", str(ln) + "0", "10", "20",
+                                                "100", "101", "110", "1000"]),
                              "nonnum": rng.choice(NONNUM), "pyint": rng.choice(PYINT_FORMS)}[kind]
                         ks[j] = (ks[j][0], v)
                         if rng.random() < .6:      # lie about the list's key type so that AASd-128 does not apply
@@ -614,7 +616,7 @@ def gen_queries(rng, aprov, facts, per_node, count, order="pre", is_old=None):
                     queries.append(("resolve", ks, ty, kind))
                     count(f"perturbation={kind}")
                 # id_short paths from a random ancestor
-                for _ in range(max(1, per_node // 2)):
+                for _ in range(1 if wide else max(1, per_node // 2)):
                     a = rng.randint(0, len(chain) - 1)
                     ids = [k[1] for k in keys[a + 1:]]
                     kind = rng.choice(["same", "trailing", "unknown", "index", "empty"])
@@ -626,7 +628,7 @@ def gen_queries(rng, aprov, facts, per_node, count, order="pre", is_old=None):
                     elif kind == "index" and ids:
                         j = rng.randrange(len(ids))
                         par_n = chain[a + 1 + j][1]
-                        ids[j] = rng.choice(PYINT_FORMS + NONNUM + [str(len(par_n["ch"])), "0", "1", "2", ""])
+                        ids[j] = rng.choice(PYINT_FORMS + NONNUM + [str(len(par_n["ch"])), "0", "1", "2", "", "10", "20", "100"])
                     elif kind == "empty":
                         ids = []
                     else:
@@ -882,6 +884,7 @@ def run(chk):
     rng = chk.rng
     quick = chk.tier == "quick"
     ncases, depth, per_node = (500, 4, 3) if quick else (6000, 6, 4)
+    rt.long_lists["p"], rt.long_lists["thorough"] = 0.06, not quick
     # ---- tie T: regenerate, then theorems
     from py2coq import refkeys, refeqhash
     facts = None
@@ -1022,10 +1025,7 @@ def run(chk):
 
 
 def coq_str_any(s):
-    """Coq string for ASCII incl. control characters"""
-    if all(32 <= ord(c) < 127 for c in s):
-        return coq_str(s)
-    return "(" + " ++ ".join(coq_str(c) if 32 <= ord(c) < 127 else f'(String (Ascii.ascii_of_nat {ord(c)}) "")' for c in s) + ")"
+    return rt.coq_str_any(s)
 
 
 def finish(chk):
